@@ -442,13 +442,13 @@ QUICK_RULES = [
 ]
 THOROUGH_RULES = [
     "T1 listening peer, acked modes (plain, ACK payloads with send_only off/on): (1+arc)(1+fr) <= 8: histories of <= 3 calls for ard=250 and <= 4 attempts, "
-    "<= 2 calls for ard=250 or <= 4 attempts, else {S,L,R,SR,SS,RS}; arc 2/3 with > 8 attempts: <= 2 calls; arc=15: ard=250 {S,L,R,SR,SS,RS} for fr<=1, "
+    "<= 2 calls for ard=250 or <= 4 attempts, else {S,L,R,SR,SS,RS}; arc 2/3 with > 8 attempts: <= 2 calls for ard=250, else {S,L,R,SR,SS,RS}; arc=15: ard=250 {S,L,R,SR,SS,RS} for fr<=1, "
     "{S,SR} for fr>=2; other ard {S,SR} for fr<=1",
     "T2 send_only=True without ACK payloads: (arc,fr) in {(0,0),(1,1),(3,0)}",
     "T3 ask_no_ack / auto-ack off: every history of <= 3 calls, every (arc,fr,ard)",
     "T4 deaf peer: histories of <= 3 calls; arc=15: <= 2 calls when fr>1 or ard=4000",
-    "T5 send_only alternating per call: ACK payloads, (arc,fr) in {(0,0),(1,0),(0,1),(1,1)}, ard {250,1500}, every history of 2..3 calls",
-    "T6 SPI cost 12 us and 100 us: (arc,fr) in {(0,1),(1,1),(1,0),(3,1)} x ard {250,1500} x acked modes, histories of <= 2 calls",
+    "T5 send_only alternating per call: ACK payloads, (arc,fr) in {(0,0),(1,0),(0,1),(1,1)}, ard=250, every history of 2..3 calls",
+    "T6 SPI cost 12 us and 100 us: (arc,fr) in {(0,1),(1,1),(1,0),(3,1)}, ard=250, acked modes, histories of <= 2 calls",
 ]
 
 
@@ -495,7 +495,7 @@ def thorough_hists(arc, ard, fr, mode, so, listen):
         return ["S", "SR"] if fr <= 1 else None
     if n <= 8:
         return H3 if (ard == 250 and n <= 4) else (H2 if (ard == 250 or n <= 4) else HPAIR)
-    return H2
+    return H2 if ard == 250 else HPAIR
 
 
 def plan(tier, tx_cls="full", rx_cls="full"):
@@ -517,13 +517,13 @@ def plan(tier, tx_cls="full", rx_cls="full"):
                                 items.append((mk_fc(arc, ard, fr, mode, so, listen, tx_cls, rx_cls), list(hs)))
     # send_only alternating between the calls of one history (ACK payloads left in / flushed from the PTX RX FIFO)
     for arc, fr in ((0, 0), (1, 0), (0, 1)) if quick else ((0, 0), (1, 0), (0, 1), (1, 1)):
-        for ard in (250,) if quick else (250, 1500):
+        for ard in (250,):
             items.append((mk_fc(arc, ard, fr, "ackpl", "alt", True, tx_cls, rx_cls),
                           ["SS", "SL", "LS", "SR", "RS", "LR"] if quick else [h for h in H3 if len(h) > 1]))
     # SPI cost (polling period) classes
     for cost in (12, 100):
         for arc, fr in ((1, 1),) if quick else ((0, 1), (1, 1), (1, 0), (3, 1)):
-            for ard in (250,) if quick else (250, 1500):
+            for ard in (250,):
                 for mode, so in (("plain", False), ("ackpl", False)) if quick else (("plain", False), ("ackpl", False), ("ackpl", True)):
                     items.append((mk_fc(arc, ard, fr, mode, so, True, tx_cls, rx_cls, cost), ["S", "SR", "SS", "RS"] if quick else list(H2)))
     bounds = dict(
